@@ -19,6 +19,10 @@ import Gotree.Lemmas.C17CountSplits
 import Gotree.Lemmas.C17NoSingle
 import Gotree.Lemmas.C17HeapT
 import Gotree.Model.C17Cli
+import Gotree.Model.C17Global
+import Gotree.Model.C17Code
+import Gotree.Lemmas.C17Global
+import Gotree.Gen.C17Code
 
 namespace Gotree.C17
 open Gotree
@@ -1257,5 +1261,184 @@ theorem apply_no_inverse_fails :
   decide
 
 example : pposOK witnessRooted = true ∧ (witnessRooted.kids.filter (fun et => !et.2.isLeaf)).length = 2 := by decide
+
+
+/- ## round 7: the whole-heap model of `Apply` / `Undo` for any history of calls (`Model/C17Global.lean`,
+   tied by op `C17.hist`): what the `applied` flag does, that a failing call writes nothing, how many
+   objects `Rearrange` builds, and a concrete history with a call that must fail -/
+
+section Global
+open Gotree.C17.G
+
+
+theorem applyG_applied (g : GHeap) (n : GNNI) (h : n.applied = true) : applyG g n = (.ok, g, n) := by
+  simp [applyG, h]
+
+theorem undoG_not_applied (g : GHeap) (n : GNNI) (h : n.applied = false) : undoG g n = (.ok, g, n) := by
+  simp [undoG, h]
+
+theorem fail_out_ne_ok (f : Fail) : f.out ≠ .ok := by cases f <;> simp [Fail.out]
+
+theorem applyG_err_unchanged (g : GHeap) (n : GNNI) (h : (applyG g n).1 ≠ .ok) : (applyG g n).2 = (g, n) := by
+  unfold applyG at h ⊢
+  cases ha : n.applied
+  · simp only [ha] at h ⊢
+    cases hc : applyCore g n with
+    | ok g' => simp [hc] at h
+    | error f => simp
+  · simp
+
+theorem undoG_err_unchanged (g : GHeap) (n : GNNI) (h : (undoG g n).1 ≠ .ok) : (undoG g n).2 = (g, n) := by
+  unfold undoG at h ⊢
+  cases ha : n.applied
+  · simp
+  · simp only [ha] at h ⊢
+    cases hc : undoCore g n with
+    | ok g' => simp [hc] at h
+    | error f => simp
+
+theorem applyG_ok_flag (g : GHeap) (n : GNNI) (h : (applyG g n).1 = .ok) : (applyG g n).2.2.applied = true := by
+  unfold applyG at h ⊢
+  cases ha : n.applied
+  · simp only [ha] at h ⊢
+    cases hc : applyCore g n with
+    | ok g' => simp
+    | error f => simp [hc] at h; exact absurd h (fail_out_ne_ok f)
+  · simp [ha]
+
+theorem undoG_ok_flag (g : GHeap) (n : GNNI) (h : (undoG g n).1 = .ok) : (undoG g n).2.2.applied = false := by
+  unfold undoG at h ⊢
+  cases ha : n.applied
+  · simp [ha]
+  · simp only [ha] at h ⊢
+    cases hc : undoCore g n with
+    | ok g' => simp
+    | error f => simp [hc] at h; exact absurd h (fail_out_ne_ok f)
+
+/-- a failing call of a history changes nothing -/
+theorem step_err_unchanged (s : State) (st : Step) (h : (step s st).1 ≠ .ok) : (step s st).2 = s := by
+  unfold step at h ⊢
+  cases hn : s.objs[st.k]? with
+  | none => simp
+  | some n =>
+    simp only [hn] at h ⊢
+    have hk : st.k < s.objs.length := by
+      rcases Nat.lt_or_ge st.k s.objs.length with h' | h'
+      · exact h'
+      · simp [List.getElem?_eq_none h'] at hn
+    have hget : s.objs[st.k] = n := by
+      have := List.getElem?_eq_getElem hk
+      rw [this] at hn; exact Option.some.inj hn
+    have key : ∀ r : Out × GHeap × GNNI, r.2 = (s.g, n) → (⟨r.2.1, s.objs.set st.k r.2.2⟩ : State) = s := by
+      intro r hr
+      rw [hr]; cases s; simp only [State.mk.injEq, true_and]
+      rw [← hget]; exact List.set_getElem_self hk
+    cases ha : st.isApply
+    · simp only [ha] at h ⊢
+      exact key _ (undoG_err_unchanged s.g n h)
+    · simp only [ha] at h ⊢
+      exact key _ (applyG_err_unchanged s.g n h)
+
+def deg3G (g : GHeap) (e : GEdge) : Bool :=
+  match g.nodes[e.left]?, g.nodes[e.right]? with
+  | some L, some R => L.neigh.length == 3 && R.neigh.length == 3
+  | _, _ => false
+
+theorem proposeG_length (g : GHeap) (e : GEdge) : (proposeG g e).length = if deg3G g e then 2 else 0 := by
+  unfold proposeG deg3G
+  cases g.nodes[e.left]? <;> cases g.nodes[e.right]? <;> simp
+  split <;> simp_all
+
+theorem rearrangeG_length (g : GHeap) : (rearrangeG g).length = 2 * (g.edges.filter (deg3G g)).length := by
+  unfold rearrangeG
+  generalize g.edges = l
+  induction l with
+  | nil => rfl
+  | cons e l ih =>
+    simp only [List.flatMap_cons, List.length_append, ih, List.filter_cons, proposeG_length]
+    split <;> simp <;> omega
+
+theorem newNNIG_fields (g : GHeap) (n1 n2 : Nat) (c : Bool) (r : GNNI) (h : newNNIG g n1 n2 c = some r) :
+    r.n1 = n1 ∧ r.n2 = n2 ∧ r.cross = c ∧ r.applied = false := by
+  unfold newNNIG at h
+  split at h
+  · simp only at h
+    split at h
+    · cases h; exact ⟨rfl, rfl, rfl, rfl⟩
+    · cases h
+  · cases h
+
+def quartet : GHeap :=
+  ⟨[⟨[1, 2, 3], [0, 1, 2]⟩, ⟨[0], [0]⟩, ⟨[0], [1]⟩, ⟨[0, 4, 5], [2, 3, 4]⟩, ⟨[3], [3]⟩, ⟨[3], [4]⟩],
+   [⟨0, 1⟩, ⟨0, 2⟩, ⟨0, 3⟩, ⟨3, 4⟩, ⟨3, 5⟩]⟩
+
+def quartetObjs : List GNNI := [⟨0, 3, 1, 2, 4, 5, false, false⟩, ⟨0, 3, 1, 2, 4, 5, true, false⟩]
+
+theorem hist_quartet :
+    wfG quartet = true ∧ rearrangeG quartet = quartetObjs.map some ∧
+    run ⟨quartet, quartetObjs⟩ [⟨0, true⟩, ⟨1, true⟩, ⟨0, true⟩, ⟨1, false⟩, ⟨0, false⟩] =
+      ([.ok, .err "Cannot apply NNI with unconnected nodes n1 n1_2", .ok, .ok, .ok], ⟨quartet, quartetObjs⟩) := by
+  decide
+
+/-- frame: a successful `Apply` writes only the records of n1, n2, n1_2 and the swapped neighbour of n2;
+    no record is created or lost -/
+theorem applyCore_frame (g g' : GHeap) (n : GNNI) (h : applyCore g n = .ok g') :
+    g'.nodes.length = g.nodes.length ∧ g'.edges.length = g.edges.length ∧
+    ∀ y, y ≠ n.n1 → y ≠ n.n2 → y ≠ n.n12 → y ≠ (if n.cross then n.n21 else n.n22) → g'.nodes[y]? = g.nodes[y]? := by
+  unfold applyCore at h
+  simp only [errAt] at h
+  repeat' (split at h)
+  all_goals first
+    | (cases h; done)
+    | skip
+  all_goals
+    cases h
+    refine ⟨?_, ?_, ?_⟩
+    · simp [setNeigh_length, setBr_length]
+    · simp only [reattach_length] <;> (first | (split <;> simp [inverse_length]) | simp [inverse_length])
+    · intro y h1 h2 h3 h4
+      split at h4
+      all_goals first
+        | contradiction
+        | simp only [setNeigh_get_ne _ _ _ _ _ h1, setNeigh_get_ne _ _ _ _ _ h2, setNeigh_get_ne _ _ _ _ _ h3,
+            setNeigh_get_ne _ _ _ _ _ h4, setBr_get_ne _ _ _ _ _ h1, setBr_get_ne _ _ _ _ _ h2]
+/-- frame: a successful `Undo` writes only the records of the same four nodes;
+    no record is created or lost -/
+theorem undoCore_frame (g g' : GHeap) (n : GNNI) (h : undoCore g n = .ok g') :
+    g'.nodes.length = g.nodes.length ∧ g'.edges.length = g.edges.length ∧
+    ∀ y, y ≠ n.n1 → y ≠ n.n2 → y ≠ n.n12 → y ≠ (if n.cross then n.n21 else n.n22) → g'.nodes[y]? = g.nodes[y]? := by
+  unfold undoCore at h
+  simp only [errAt] at h
+  repeat' (split at h)
+  all_goals first
+    | (cases h; done)
+    | skip
+  all_goals
+    cases h
+    refine ⟨?_, ?_, ?_⟩
+    · simp [setNeigh_length, setBr_length]
+    · simp only [reattach_length] <;> (first | (split <;> simp [inverse_length]) | simp [inverse_length])
+    · intro y h1 h2 h3 h4
+      split at h4
+      all_goals first
+        | contradiction
+        | simp only [setNeigh_get_ne _ _ _ _ _ h1, setNeigh_get_ne _ _ _ _ _ h2, setNeigh_get_ne _ _ _ _ _ h3,
+            setNeigh_get_ne _ _ _ _ _ h4, setBr_get_ne _ _ _ _ _ h1, setBr_get_ne _ _ _ _ _ h2]
+
+
+/- the hypotheses of the theorems above are satisfiable: on the quartet both calls succeed, a call
+   fails (the twin of a rearrangement in force), and the flag is set and cleared -/
+example : ((applyCore quartet ⟨0, 3, 1, 2, 4, 5, false, false⟩).toOption.bind fun g' =>
+    (undoCore g' ⟨0, 3, 1, 2, 4, 5, false, true⟩).toOption) = some quartet := by decide
+example : (applyG quartet ⟨0, 3, 1, 2, 4, 5, false, false⟩).1 = .ok ∧
+    (applyG (applyG quartet ⟨0, 3, 1, 2, 4, 5, false, false⟩).2.1 ⟨0, 3, 1, 2, 4, 5, true, false⟩).1 ≠ .ok := by decide
+example : (g : GHeap) → g = quartet → (g.edges.filter (deg3G g)).length = 1 ∧ (rearrangeG g).length = 2 := by
+  intro g h; subst h; decide
+
+end Global
+
+/-- TABLE (round 7): the facts about tree/rearrange.go and cmd/nni.go the models were transcribed from,
+    re-read from the source by `harness/c17/extract.go` on every run, are the expected ones. -/
+theorem code_facts_check : Gotree.Gen.C17.facts = expected := by decide
 
 end Gotree.C17
